@@ -1,7 +1,7 @@
 """C06: no device behaviour or port failure can crash or hang the driver."""
 from lib import script
 
-THEOREMS = ["C06_total", "C06_no_panic", "C06_response_parser_total", "C06_at_most_8_writes", "C06_one_write_per_exchange"]
+THEOREMS = ["C06_total", "C06_no_panic", "C06_response_parser_total", "C06_at_most_8_writes", "C06_one_write_per_exchange", "C06_reads_at_end", "C06_api_reads_at_end"]
 
 
 def run(res, args):
